@@ -102,8 +102,19 @@ def options(rng):
     return o
 
 
+class GuesserFailed(Exception):
+    pass
+
+
 def guess_lengths(code_rules_dir, name, sc):
     """lengths of all non-Markov guesses per base structure of the (edited) ruleset"""
+    try:
+        return _guess_lengths(code_rules_dir, name, sc)
+    except Exception as e:
+        raise GuesserFailed("%s: %s" % (type(e).__name__, e))
+
+
+def _guess_lengths(code_rules_dir, name, sc):
     from lib_guesser.pcfg_grammar import PcfgGrammar
     g, _, _ = common.quiet_call(PcfgGrammar, name, os.path.join(code_rules_dir, name), "4.7", None, True, False, False, "Grammar")
     items, _, capped, _ = impl_next.full_stream(g, cap=3000, check_heap=False)
@@ -245,7 +256,12 @@ def run(ctx):
         if raised:
             vio.append({"sig": "C20:raised", "what": "edit_rules.py failed: %s" % p.stderr.decode()[-200:], "replay": replay})
         else:
-            per, capped = guess_lengths(rules, os.path.basename(target), sc)
+            try:
+                per, capped = guess_lengths(rules, os.path.basename(target), sc)
+            except GuesserFailed as e:
+                # no guess at all can be generated from the edited ruleset
+                vio.append({"sig": "C20:guesser-fails-on-edited-ruleset", "what": "the guesser cannot generate from the edited ruleset: %s" % e, "replay": replay})
+                per = {}
             vio += judge(orig, after_lines, opt, per, replay)
             # ---- a second edit of the ruleset just edited (what the first edit wrote is the second one's input)
             if after_lines and r % 2 == 0:
@@ -260,7 +276,11 @@ def run(ctx):
                     cases.append(coq_case(after_lines, None, opt2))
                 else:
                     after2 = read_lines(os.path.join(target, "Grammar", "grammar.txt"))
-                    per2, _ = guess_lengths(rules, tname, sc)
+                    try:
+                        per2, _ = guess_lengths(rules, tname, sc)
+                    except GuesserFailed as e:
+                        vio.append({"sig": "C20:guesser-fails-on-edited-ruleset", "what": "the guesser cannot generate from the twice edited ruleset: %s" % e, "replay": replay2})
+                        per2 = {}
                     vio += judge(after_lines, after2, opt2, per2, replay2, ":second-edit")
                     a2 = tree_hash(target, skip=("Grammar/grammar.txt",))
                     if a2 != {k: v for k, v in before2.items() if k != "Grammar/grammar.txt"}:
@@ -326,7 +346,10 @@ def replay(ctx, data):
     p = subprocess.run(args, cwd=code, env=env, stdout=subprocess.PIPE, stderr=subprocess.PIPE, timeout=60)
     if p.returncode != 0:
         return [{"sig": "C20:raised", "what": p.stderr.decode()[-200:], "replay": inp}]
-    per, _ = guess_lengths(rules, rs["name"], common.scratch())
+    try:
+        per, _ = guess_lengths(rules, rs["name"], common.scratch())
+    except GuesserFailed as e:
+        return [{"sig": "C20:guesser-fails-on-edited-ruleset", "what": str(e), "replay": inp}]
     mn, mx = opt.get("min", 0), opt.get("max", 0)
     if "min" in opt:
         for s, ls in per.items():
